@@ -203,6 +203,9 @@ PROPS = {
              "bound": "multi-byte character + 2 chars over the escape alphabet", "timeout": 300, "extra_modules": ["tokenizer"]},
             {"engine": "E2", "module": "lib", "harness": "h_sample_roundtrip", "msg_prefix": "C02", "functions": ["load_from_string", "A2lFile::write_to_string", "specification::*::parse / stringify of every element kind in the sample"],
              "bound": "the repository's own 340-line sample document: the written text has the same significant tokens in the same order (numbers by value)", "timeout": 600, "extra_modules": ["tokenizer"], "max_steps": 50000000},
+            {"engine": "E2", "module": "lib", "harness": "h_every_element_roundtrip", "msg_prefix": "C02", "functions": ["load_from_string", "A2lFile::write_to_string", "specification::*::parse / stringify of every element of the grammar (203 of 205; generated document)", "generated PartialEq impls"],
+             "bound": "one document generated from the DSL of the tree under check that holds every block and keyword valid at version 1.71 once (465 lines): strict load without diagnostics, write, reload equal (== and field by field), second write identical, every token kept", "timeout": 900, "extra_modules": ["tokenizer"], "max_steps": 300000000,
+             "must_cover": ["generated document and fingerprint module are in place"]},
             {"engine": "E2", "module": "lib", "harness": "h_ifdata_uninterpreted", "functions": ["ifdata::parse_unknown_ifdata_start", "ifdata::parse_unknown_ifdata", "ifdata::parse_unknown_taggedstruct", "a2ml::GenericIfData::write_item"],
              "bound": "11 payloads of an IF_DATA no specification describes: small / negative / hex / > 32 bit decimal / > 32 bit hex / floats / string+ident / nested blocks / repeated sibling blocks / repeated keywords", "timeout": 300, "extra_modules": ["tokenizer"]},
         ],
@@ -237,6 +240,9 @@ PROPS = {
             {"engine": "E2", "module": "lib", "harness": "h_ifdata_definitions", "msg_prefix": "C01", "functions": ["load_from_string", "tokenizer::handle_a2ml", "A2ml::stringify", "a2ml::GenericIfData::write", "A2lFile::write_to_string"],
              "bound": "8 A2ML definitions x {conforming, deviating IF_DATA} x {LF, CRLF}: reload equal, second write identical", "timeout": 400, "extra_modules": ["tokenizer"]},
         ] + [
+            {"engine": "E2", "module": "lib", "harness": "h_every_element_roundtrip", "msg_prefix": "C01", "functions": ["load_from_string", "A2lFile::write_to_string", "specification::*::parse / stringify of every element of the grammar (203 of 205; generated document)", "generated PartialEq impls"],
+             "bound": "one document generated from the DSL of the tree under check that holds every block and keyword valid at version 1.71 once (465 lines): strict load without diagnostics, write, reload equal (== and field by field), second write identical, every token kept", "timeout": 900, "extra_modules": ["tokenizer"], "max_steps": 300000000,
+             "must_cover": ["generated document and fingerprint module are in place"]},
             {"engine": "E2", "module": "lib", "harness": "h_comment_layout_lineends", "msg_prefix": "C01", "functions": ["load_from_string", "tokenizer::tokenize_core", "tokenizer::count_newlines", "parser::ParserState::get_line_offset", "writer::Writer::add_group", "A2lFile::write_to_string"],
              "bound": "block comment with 0..=3 inner line breaks x 0..=2 line breaks behind it x 3 positions (file head, in front of /begin MODULE, in front of /end MODULE) x line ends {LF, CRLF, CR} (108 documents)", "timeout": 300, "extra_modules": ["tokenizer"], "must_cover": ["comment_layout_end"]},
         ] + [
@@ -419,7 +425,7 @@ PROPS = {
         "trusted": T_STD + ["rustfmt and proc_macro2's fallback implementation (the in-tree generator is run as a test of the scratch copy of a2lmacros, outside the compiler)",
                             "the hand-written head and tail of specification_orig.rs are used unchanged for the second build"],
         "assumptions": ["relational claim over the inputs of the observation harnesses only: one MEASUREMENT with symbolic version / data type / optional element / hex digits / strictness; the repository's sample document and the all-kinds module (load, write, sort, sort_new_items); 13 fault kinds x 2 layouts x 2 modes; unknown elements at 17 positions inside real blocks x 2 modes; check + merge + cleanup on the merge template",
-                        "observations compared: load result, number of diagnostics, line of the first diagnostic / of the error, length of the error text, the written text byte for byte",
+                        "observations compared: load result, number of diagnostics, line of the first diagnostic / of the error, length of the error text, the written text byte for byte, and every public data field of the loaded model (fingerprint functions generated from the struct definitions of specification.rs)",
                         "the proc-macro glue in a2lmacros/src/lib.rs is not part of the second build (the generator function behind it is)"],
         "jobs": [
             {"engine": "E2", "module": "lib", "harness": "h_c20_measurement", "functions": ["specification::Measurement::parse / stringify", "specification::{A2lFile,Project,Module}::parse / stringify", "specification::{DataType,AddrType,ByteOrderEnum,IndexOrder}::parse", "parser::ParserState::check_block_version_*", "load_from_string", "A2lFile::write_to_string"],
@@ -430,6 +436,9 @@ PROPS = {
              "bound": "13 fault kinds x 2 layouts x strict / non-strict (52 documents)", "timeout": 400, "extra_modules": ["tokenizer"], "max_steps": 4000000, "validate": 10},
             {"engine": "E2", "module": "lib", "harness": "h_c20_unknown_elements", "functions": ["specification::{RecordLayout,Measurement,Characteristic,AxisDescr,CompuMethod,Module}::parse (TAG_LISTs)", "parser::ParserState::handle_unknown_taggedstruct_tag"],
              "bound": "3 unknown payloads x every insertion point of the C07 document x strict / non-strict", "timeout": 600, "extra_modules": ["tokenizer"], "max_steps": 6000000, "validate": 10},
+            {"engine": "E2", "module": "lib", "harness": "h_c20_every_element", "functions": ["specification::*::parse / stringify of every element of the grammar (generated document)", "load_from_string", "A2lFile::write_to_string"],
+             "bound": "the every-element document generated from the DSL (203 of 205 grammar elements), strict / non-strict: diagnostics, written text and every data field of the model (generated fingerprint)", "timeout": 900, "extra_modules": ["tokenizer"], "max_steps": 300000000, "validate": 2,
+             "must_cover": ["generated document and fingerprint module are in place"]},
             {"engine": "E2", "module": "lib", "harness": "h_c20_module_ops", "functions": ["A2lFile::check", "A2lFile::merge_modules", "A2lFile::cleanup", "generated PartialEq / A2lObjectName impls"],
              "bound": "merge template merged with a renamed copy of itself, then cleanup (1 concrete path)", "timeout": 600, "extra_modules": ["tokenizer"], "max_steps": 80000000, "validate": 1},
         ],
